@@ -2924,8 +2924,10 @@ DLLEXPORT size_t tj3TransformBufSize(tjhandle handle,
   }
 
   retval = tj3JPEGBufSize(dstWidth, dstHeight, dstSubsamp);
+  /* tj3Transform() writes the ICC profile associated with the instance unless
+     an ICC profile is copied from the source image. */
   if ((this->saveMarkers == 2 || this->saveMarkers == 4) &&
-      !(transform->options & TJXOPT_COPYNONE))
+      !(transform->options & TJXOPT_COPYNONE) && this->tempICCSize != 0)
     retval += this->tempICCSize;
   else
     retval += this->iccSize;
